@@ -141,6 +141,16 @@ Proof.
 Qed.
 Print Assumptions C37_dedup_sorted_last_wins.
 
+(** Exclude and Include of the same closed range split a strictly sorted array into two
+    disjoint parts that Merge (in either order) puts back together: nothing is lost,
+    nothing is duplicated, for every range (also min > max) and every int64 bound. *)
+Theorem C37_exclude_include_partition :
+  forall (V : Type) (a : arr V) (mn mx : Z), ssorted a ->
+    arr_merge (arr_exclude a mn mx) (arr_include a mn mx) = a /\
+    arr_merge (arr_include a mn mx) (arr_exclude a mn mx) = a.
+Proof. intros V a mn mx. apply exclude_include_partition. Qed.
+Print Assumptions C37_exclude_include_partition.
+
 (** Strictly sorted arrays ARE finite maps: equal lookups imply equal arrays (so the
     lookup characterisations above determine the results uniquely). *)
 Theorem C37_sorted_array_determined_by_lookup :
